@@ -63,12 +63,15 @@ func (p *vParser) ident() (string, bool) {
 
 var vErrSyntax = errors.New("route syntax error")
 
+// Like participle, it hands back what it had parsed so far together with the
+// error (callers that ignore the error see a truncated route, as they would
+// with the real parser).
 func vParseRoute(s string) (*Route, error) {
 	p := &vParser{s: s}
 	r := &Route{}
 	for p.pos < len(p.s) {
 		if !p.at('/') {
-			return nil, vErrSyntax
+			return r, vErrSyntax
 		}
 		seg := &Segment{Pos: p.position()}
 		p.pos++
@@ -85,7 +88,7 @@ func vParseRoute(s string) (*Route, error) {
 				p.pos++
 				id, ok := p.ident()
 				if !ok {
-					return nil, vErrSyntax
+					return r, vErrSyntax
 				}
 				if p.at('}') {
 					p.pos++
@@ -95,7 +98,7 @@ func vParseRoute(s string) (*Route, error) {
 					bp := &BindParameters{}
 					for {
 						if !p.at(':') {
-							return nil, vErrSyntax
+							return r, vErrSyntax
 						}
 						p.pos++
 						for p.at(' ') {
@@ -109,7 +112,7 @@ func vParseRoute(s string) (*Route, error) {
 								p.pos++
 							}
 							if p.pos == start || !p.at('/') {
-								return nil, vErrSyntax
+								return r, vErrSyntax
 							}
 							re := p.s[start:p.pos]
 							par.Value.Regex = &re
@@ -117,7 +120,7 @@ func vParseRoute(s string) (*Route, error) {
 						} else {
 							lit, ok := p.ident()
 							if !ok {
-								return nil, vErrSyntax
+								return r, vErrSyntax
 							}
 							par.Value.Literal = &lit
 						}
@@ -127,7 +130,7 @@ func vParseRoute(s string) (*Route, error) {
 							break
 						}
 						if !p.at(',') {
-							return nil, vErrSyntax
+							return r, vErrSyntax
 						}
 						p.pos++
 						for p.at(' ') {
@@ -135,13 +138,13 @@ func vParseRoute(s string) (*Route, error) {
 						}
 						id, ok = p.ident()
 						if !ok {
-							return nil, vErrSyntax
+							return r, vErrSyntax
 						}
 					}
 					e.BindParameters = bp
 				}
 			} else {
-				return nil, vErrSyntax
+				return r, vErrSyntax
 			}
 			e.EndPos = p.position()
 			seg.Elements = append(seg.Elements, e)
@@ -149,7 +152,7 @@ func vParseRoute(s string) (*Route, error) {
 		r.Segments = append(r.Segments, seg)
 	}
 	if len(r.Segments) == 0 {
-		return nil, vErrSyntax
+		return r, vErrSyntax
 	}
 	return r, nil
 }
